@@ -6,10 +6,12 @@ EXTENDS Integers, Json, TLC, ExtReal
 
 VARIABLES lp, lq, x, last
 M == INSTANCE MH WITH State <- {0, 1},
-                      LogVals <- {NInf, PInf, NaN} \cup {Fin(1000 * k) : k \in -2..2},
+                      LogVals <- {NInf, PInf, NaN} \cup {Fin(1000 * k) : k \in -2..2} \cup {Fin(-800000)},
                       UClass <- -1..5
 
-Vals == {NInf, PInf, NaN} \cup {Fin(1000 * k) : k \in -2..2}
+\* -800: a finite log-value far below ln of the smallest positive f64 (-745) and f32 (-103): with u = 0 exactly
+\* (ln u = -inf) a finite ratio of -800 is still accepted, with the smallest positive draw it is not
+Vals == {NInf, PInf, NaN} \cup {Fin(1000 * k) : k \in -2..2} \cup {Fin(-800000)}
 
 Init ==
   /\ lp \in [{0, 1} -> Vals]
